@@ -439,6 +439,14 @@ for case in inp.get("synthetic") or []:
         r["got"] = canon(ak.to_layout(arr))
     except Exception as e:
         r["raised"] = f"{type(e).__name__}: {str(e)[:200]}"
+    # the same stream through the schema builder + extracted decoder (second, independent path to the model's presentation)
+    try:
+        if case.get("cls") in case.get("streamer", {}) and all("_kind" in e for v in case["streamer"].values() for e in v):
+            toks = class_tokens(case["cls"], case["streamer"], f"{case['path']}.{case['cls']}", None)
+            a = run_rootdec([(["obj", "1" if case.get("digi") else "0"], toks, bytes.fromhex(case["data"]), case["offs"])])[0]
+            r["model"] = None if a is None else a[1]
+    except Exception as e:
+        r["model_error"] = f"{type(e).__name__}: {str(e)[:200]}"
     syn_out.append(r)
 results["synthetic"] = syn_out
 for m in results["mismatches"]:
